@@ -194,6 +194,9 @@ def variants(spec):
         out.append((f"node permutation {nm}", nm, base_ids, F.relabel(spec, node_map=nm, edge_ids=base_ids)))
     nm10 = {n: n + 10 for n in nodes}
     out.append(("nodes +10", nm10, base_ids, F.relabel(spec, node_map=nm10, edge_ids=base_ids)))
+    # integers whose set iteration order is not their sorted order (8 hashes to slot 0 of a small table)
+    nmh = dict(zip(sorted(nodes), [8, 1, 16, 3, 24, 5][:len(nodes)]))
+    out.append(("nodes -> hash-unordered integers", nmh, base_ids, F.relabel(spec, node_map=nmh, edge_ids=base_ids)))
     nms = {n: "v%s" % (9 - n) for n in nodes}
     out.append(("nodes -> strings (reverse lexical order)", nms, base_ids, F.relabel(spec, node_map=nms, edge_ids=base_ids)))
     # edge id maps
@@ -258,6 +261,8 @@ def _work(spec):
 def family(tier):
     if tier == "quick":
         fam = list(F.undirected([1, 2, 3], 3)) + list(F.undirected([1, 2, 3, 4], 2, min_edges=1))
+        # nested / overlapping larger edges: all triples of distinct edges of size >= 2 over 4 labels
+        fam += list(F.undirected([1, 2, 3, 4], 3, isolated=False, multi=False, lo=2, min_edges=3))
     else:
         fam = list(F.undirected([1, 2, 3, 4], 3)) + list(F.undirected([1, 2, 3, 4, 5], 2, min_edges=1))
     return fam
@@ -265,9 +270,10 @@ def family(tier):
 
 def run(tier, ev):
     fam = family(tier)
-    ev.cov["rule"] = ("all hypergraphs over 3 labels with <=3 edges and over 4 labels with <=2 edges (quick; thorough: 4 "
-                      "labels <=3 edges, 5 labels <=2 edges; multi-edges, singletons, isolated nodes) x relabelling grid "
-                      "(all node permutations, +10, strings; all edge-ID permutations, gaps, strings; all edge insertion "
+    ev.cov["rule"] = ("all hypergraphs over 3 labels with <=3 edges, over 4 labels with <=2 edges, and all triples of distinct "
+                      "edges of size >=2 over 4 labels (quick; thorough: 4 labels <=3 edges, 5 labels <=2 edges; multi-edges, "
+                      "singletons, isolated nodes) x relabelling grid "
+                      "(all node permutations, +10, hash-unordered integers, strings; all edge-ID permutations, gaps, strings; all edge insertion "
                       "orders, reversed node insertion, reversed member order, combined) x ~70 observables; a case is one "
                       "(network, relabelling, observable); non-trivial = both sides returned a value that was compared")
     res = explore.parallel_map(_work, fam, env.nproc())
